@@ -18,7 +18,8 @@ ID = "C02"
 THEOREMS = ["C02_walk_is_path", "C02_color_road", "C02_has_road", "C02_winner", "C02_flat_count",
             "C02_has_road_agrees_winner", "C02_no_road_agrees_winner", "C02_tie_kind_is_road",
             "C02_source_winner_outcome",
-            "C02_walk_py_reach", "C02_walk_py_eq", "C02_walk_py_is_path", "C02_has_road_py_eq", "C02_has_road_py"]
+            "C02_walk_py_reach", "C02_walk_py_eq", "C02_walk_py_is_path", "C02_has_road_py_eq", "C02_has_road_py",
+            "C02_source_walk_eq", "C02_source_has_road_eq", "C02_source_winner_eq", "C02_source_has_road_verdict"]
 MODEL_TARGETS = ["model/Tak.vo", "model/Road.vo", "model/RoadPy.vo", "model/Harness.vo", "model/Lit.vo"]
 TRUSTED_BASE = [
     "CPython list indexing board[y*size+x] and stack[0] = top (validated by the correspondence)",
